@@ -27,6 +27,7 @@ func (fr *frame) contractEnv(h *Heap) *Env {
 	for i, p := range fr.fn.Params {
 		if fr.params != nil && i < len(fr.params) && fr.params[i].Loc == nil && fr.params[i].Clo == nil && fr.params[i].Fn == nil {
 			env.vars[p.Name()] = valTV(fr.params[i])
+			env.vars["old!"+exprKey(EIdent{p.Name()})] = valTV(fr.params[i])
 		}
 	}
 	return env
@@ -146,6 +147,22 @@ func (fr *frame) callFunc(x ssa.Instruction, callee *ssa.Function, args, free []
 	}
 	fc := fr.w.contractFor(callee)
 	anon := callee.Parent() != nil
+	if fr.w.inRepo(callee) && !anon && !(fc != nil && fc.Inline) && !fr.isDiscovery {
+		// thin default contract of repo functions: non-nil pointer arguments, data invariants
+		for i, a := range args {
+			if a.T == nil || i >= len(callee.Params) {
+				continue
+			}
+			pn := callee.Params[i].Name()
+			if isPtrLike(callee.Params[i].Type()) && !nilTolerant(callee, i) && !(fc != nil && strings.Contains(" "+fc.Opts["nilable"]+" ", " "+pn+" ")) {
+				fr.vc.oblige("pre", fmt.Sprintf("pre/%s->%s/nonnil:%s", relName(fr.fn), relName(callee), pn), fr.safetyProps(), st.reach, Not(Eq(a.T, IntLit(0))), fr.pos(x.Pos()))
+				fr.vc.assume(st.reach, Not(Eq(a.T, IntLit(0))))
+			}
+			for k, t := range fr.w.dataInvTerms(a, st.heap, fr.vc) {
+				fr.vc.oblige("pre", fmt.Sprintf("pre/%s->%s/datainv:%s#%d", relName(fr.fn), relName(callee), pn, k+1), fr.safetyProps(), st.reach, t, fr.pos(x.Pos()))
+			}
+		}
+	}
 	switch {
 	case fc != nil && fc.Inline, anon && fc == nil && fr.w.inRepo(callee):
 		return fr.inline(x, callee, fc, args, free, st, name)
